@@ -42,6 +42,8 @@ def make_driver_class(cfg, trace, kind):
     pw, cw, pc, cc, pr = cfg
     if kind == "text":
         vec = properties.TextVector("V", elements=dict(t=properties.Text("T", default="o"), u=properties.Text("U", default="u")))
+    elif kind == "oneofmany":
+        vec = properties.SwitchVector("V", rule="OneOfMany", elements=dict(t=properties.Switch("T"), u=properties.Switch("U")))
     else:
         vec = properties.SwitchVector("V", rule="AnyOfMany", elements=dict(t=properties.Switch("T"), u=properties.Switch("U")))
 
@@ -119,6 +121,12 @@ def scenario(cfg, kind, entry, two_instances=False):
             old = "On" if d.bool("old-on") else "Off"
             new = "On" if d.bool("new-on") else "Off"
         el._value = old
+        requested = new
+        if kind == "oneofmany":
+            # the other switch is Off: switching the only On switch Off is overridden by the rule
+            drv.main.v.u._value = "Off"
+            if new == "Off":
+                new = "On"      # what the element must hold / publish / report afterwards
         enabled = d.bool("vector-enabled")
         drv.main.v._enabled = enabled
         veto = d.bool("veto") if cfg[0] >= 1 and entry != "assign" else False
@@ -129,11 +137,11 @@ def scenario(cfg, kind, entry, two_instances=False):
             if entry == "client":
                 Part = one_parts.OneText if kind == "text" else one_parts.OneSwitch
                 Msg = message.NewTextVector if kind == "text" else message.NewSwitchVector
-                router.process_message(Msg(device="DEV", name="V", children=(Part(name="T", value=new),)), sender=None)
+                router.process_message(Msg(device="DEV", name="V", children=(Part(name="T", value=requested),)), sender=None)
             elif entry == "set_value":
-                el.set_value(new)
+                el.set_value(requested)
             else:
-                el.value = new
+                el.value = requested
             returned_at.append(len(trace))
         loop.call_at(0, act)
         try:
@@ -158,14 +166,14 @@ def scenario(cfg, kind, entry, two_instances=False):
                 return verdict(False, f"{tag} invoked {n} times")
         for i, t in enumerate(trace):
             if t[0].startswith("write-plain"):
-                if t[2] != new:
+                if t[2] != requested:
                     return verdict(False, "a Write handler did not get the requested value")
                 if t[4] != old:
                     return verdict(False, "a plain Write handler ran after the state had changed")
                 if "published" in names[:i]:
                     return verdict(False, "published before the plain Write handlers ran")
             if t[0].startswith("write-coro"):
-                if t[2] != new:
+                if t[2] != requested:
                     return verdict(False, "a coroutine Write handler did not get the requested value")
                 if i < sync_end:
                     return verdict(False, "a coroutine Write handler ran inline instead of as a task")
@@ -254,7 +262,7 @@ def conditions(tier):
     for cfg in configs:
         tag = "".join(str(x) for x in cfg)
         for entry in ("client", "set_value", "assign"):
-            kinds = ("text", "switch") if (thorough or cfg in CONFIGS_QUICK[:4]) else ("text",)
+            kinds = ("text", "switch", "oneofmany") if (thorough or cfg in CONFIGS_QUICK[:4]) else (("text", "oneofmany") if cfg[2] else ("text",))
             for kind in kinds:
                 out.append(Condition(f"event/{tag}/{kind}/{entry}", make_condition(scenario(cfg, kind, entry), 2, 0, 4),
                                      about=f"handlers (plainW,coroW,plainC,coroC,plainR)={cfg}, {kind} element, entry {entry}",
